@@ -188,6 +188,7 @@ type simSpeakerConf struct {
 	AddPath  map[bgp.Family]bgp.BGPAddPathMode  // as announced by the speaker (used when Caps == nil)
 	NoAS4    bool
 	NoRouteRefresh bool
+	ExtraCaps []bgp.ParameterCapabilityInterface // appended to the generated capabilities (used when Caps == nil)
 	Port     uint16
 }
 
@@ -257,6 +258,7 @@ func (sp *simSpeaker) caps() []bgp.ParameterCapabilityInterface {
 			caps = append(caps, bgp.NewCapAddPath(tuples))
 		}
 	}
+	caps = append(caps, sp.conf.ExtraCaps...)
 	return caps
 }
 
